@@ -44,8 +44,8 @@ func c02Count(c *Ctx) {
 	n := 0
 	owners := map[*types.TypeName]bool{info.Named.Obj(): true}
 	fields := execStateFields(c.P, "retrypolicy", info.Named)
-	for _, fr := range fields {
-		if on := c.P.NamedType("retrypolicy", fr.Type); on != nil {
+	for _, sf := range execStateFieldsEx(c.P, "retrypolicy", info.Named) {
+		if on := c.P.NamedType("retrypolicy", sf.Part); on != nil {
 			owners[on.Obj()] = true
 		}
 	}
@@ -92,9 +92,16 @@ func c02Count(c *Ctx) {
 }
 
 // execStateFields: the mutable per-execution fields of a policy executor: its own non-embedded fields plus the
-// fields of same-package structs it embeds by value (state grouped into a helper struct is still its state).
-func execStateFields(p *Program, pkg string, named *types.Named) []FieldRef {
-	var out []FieldRef
+// fields of same-package structs it holds by value (state grouped into a part is still its state). References
+// are attributed to the executor type, as fieldRefOfAddr attributes the accesses.
+type stateField struct {
+	Ref  FieldRef
+	Part string     // name of the struct type the field is declared in
+	Typ  types.Type // the field's type
+}
+
+func execStateFieldsEx(p *Program, pkg string, named *types.Named) []stateField {
+	var out []stateField
 	var walk func(n *types.Named, depth int)
 	walk = func(n *types.Named, depth int) {
 		s, ok := n.Underlying().(*types.Struct)
@@ -103,16 +110,27 @@ func execStateFields(p *Program, pkg string, named *types.Named) []FieldRef {
 		}
 		for i := 0; i < s.NumFields(); i++ {
 			f := s.Field(i)
-			if f.Embedded() {
-				if en, ok := f.Type().(*types.Named); ok && en.Obj().Pkg() == named.Obj().Pkg() {
+			if en, ok := f.Type().(*types.Named); ok && en.Obj().Pkg() == named.Obj().Pkg() {
+				if _, isStruct := en.Underlying().(*types.Struct); isStruct {
 					walk(en, depth+1)
+					continue
 				}
+			}
+			if f.Embedded() {
 				continue
 			}
-			out = append(out, FieldRef{Type: typeCanonName(n.Obj()), Pkg: pkg, Field: f.Name()})
+			out = append(out, stateField{Ref: FieldRef{Type: typeCanonName(named.Obj()), Pkg: pkg, Field: f.Name()}, Part: n.Obj().Name(), Typ: f.Type()})
 		}
 	}
 	walk(named, 0)
+	return out
+}
+
+func execStateFields(p *Program, pkg string, named *types.Named) []FieldRef {
+	var out []FieldRef
+	for _, sf := range execStateFieldsEx(p, pkg, named) {
+		out = append(out, sf.Ref)
+	}
 	return out
 }
 
